@@ -20,6 +20,7 @@ import (
 	"hash/fnv"
 	"os"
 	"path/filepath"
+	"reflect"
 	"sort"
 	"strings"
 
@@ -73,12 +74,91 @@ func c18CoreParams() []c18CoreParam {
 		{"NewText.0", func(v string) core.Component { return core.NewText(v) }},
 	}
 	var out []c18CoreParam
-	for _, p := range probes {
-		r := c18Render(p.f("\x01<\"\x02"))
+	have := map[string]bool{"NewFile.0": true, "NewDirectoryFileWriter.0": true} // file and directory names are not page content (C19)
+	const probe = "\x01<\"\x02"
+	judge := func(name, r string) {
 		i, j := strings.Index(r, "\x01"), strings.Index(r, "\x02")
-		out = append(out, c18CoreParam{Name: p.name, Raw: strings.Contains(r, "\x01<\"\x02"), OK: i >= 0 && j > i})
+		out = append(out, c18CoreParam{Name: name, Raw: strings.Contains(r, probe), OK: i >= 0 && j > i})
+		have[name] = true
+	}
+	for _, p := range probes {
+		judge(p.name, c18Render(p.f(probe)))
+	}
+	// every other exported constructor / method of html/core with a string parameter (go/ast):
+	// methods of the builder types are probed by reflection, anything that cannot be probed is
+	// reported as raw ("UNPROBED") so that it cannot appear unnoticed
+	instances := map[string]func() core.Component{
+		"TableCell": func() core.Component { return core.NewTableCell(e()) },
+		"Link":      func() core.Component { return core.NewLink(e(), "") },
+	}
+	sigs := c18CoreSigs()
+	var names []string
+	for n := range sigs {
+		names = append(names, n)
+	}
+	sort.Strings(names)
+	for _, n := range names {
+		sig := sigs[n]
+		for i, k := range sig.params {
+			pname := fmt.Sprintf("%s.%d", n, i)
+			if sig.variadic && i == len(sig.params)-1 {
+				pname = n + ".*"
+			}
+			switch k {
+			case "attrs":
+				if !have[n+".key"] || !have[n+".value"] {
+					out = append(out, c18CoreParam{Name: n + ".key", Raw: true}, c18CoreParam{Name: n + ".value", Raw: true})
+				}
+				continue
+			case "string":
+			default:
+				continue
+			}
+			if have[pname] {
+				continue
+			}
+			if dot := strings.IndexByte(n, '.'); dot > 0 {
+				if mk, ok := instances[n[:dot]]; ok {
+					if r, ok := c18ReflectProbe(mk(), n[dot+1:], i, probe); ok {
+						judge(pname, r)
+						continue
+					}
+				}
+			}
+			out = append(out, c18CoreParam{Name: pname, Raw: true})
+			have[pname] = true
+		}
 	}
 	return out
+}
+
+// c18ReflectProbe calls method `name` of the component with `probe` as its idx-th argument (zero
+// values elsewhere) and renders the result.
+func c18ReflectProbe(inst core.Component, name string, idx int, probe string) (out string, ok bool) {
+	defer func() {
+		if recover() != nil {
+			ok = false
+		}
+	}()
+	m := reflect.ValueOf(inst).MethodByName(name)
+	if !m.IsValid() {
+		return "", false
+	}
+	t := m.Type()
+	args := make([]reflect.Value, t.NumIn())
+	for i := range args {
+		args[i] = reflect.Zero(t.In(i))
+		if i == idx && t.In(i).Kind() == reflect.String {
+			args[i] = reflect.ValueOf(probe)
+		}
+	}
+	res := m.Call(args)
+	if len(res) > 0 {
+		if c, isC := res[0].Interface().(core.Component); isC && !res[0].IsNil() {
+			return c18Render(c), true
+		}
+	}
+	return c18Render(inst), true
 }
 
 // parameter kinds of the core constructors as far as the call-site analysis needs them
@@ -324,6 +404,20 @@ var c18HtmlForwarders = map[string]int{"NewIndividualName": 2, "NewIndividualNam
 // c18SinkCalls lists the calls.
 func c18SinkCalls() []c18SinkCall {
 	sigs := c18CoreSigs()
+	methodTypes := map[string][]string{} // method name -> core types that have it with a string parameter
+	for n, sig := range sigs {
+		if dot := strings.IndexByte(n, '.'); dot > 0 {
+			for _, k := range sig.params {
+				if k == "string" {
+					methodTypes[n[dot+1:]] = append(methodTypes[n[dot+1:]], n[:dot])
+					break
+				}
+			}
+		}
+	}
+	for _, ts := range methodTypes {
+		sort.Strings(ts)
+	}
 	var calls []c18SinkCall
 	scan := func(dir string, only string) {
 		fset := token.NewFileSet()
@@ -443,19 +537,34 @@ func c18SinkCalls() []c18SinkCall {
 									add("q.Write", a, "string")
 								}
 							}
-							// methods that set a string on a core component: .Class / .Style
-							if fun.Sel.Name == "Class" || fun.Sel.Name == "Style" {
-								recv := "TableCell" // conservative default: the raw one
+							// methods of core components that take a string (TableCell.Class/Style/…,
+							// Link.Style; whatever html/core declares): the receiver type is read from the
+							// constructor at the root of the call chain, else every type with that method counts
+							if types := methodTypes[fun.Sel.Name]; len(types) > 0 {
+								recv := ""
 								ast.Inspect(fun.X, func(m ast.Node) bool {
 									if c2, ok := m.(*ast.CallExpr); ok {
-										if se, ok := c2.Fun.(*ast.SelectorExpr); ok && se.Sel.Name == "NewLink" {
-											recv = "Link"
+										if se, ok := c2.Fun.(*ast.SelectorExpr); ok && strings.HasPrefix(se.Sel.Name, "New") {
+											for _, t := range types {
+												if se.Sel.Name == "New"+t {
+													recv = t
+												}
+											}
 										}
 									}
 									return true
 								})
-								for _, a := range call.Args {
-									add(recv+"."+fun.Sel.Name+".0", a, "string")
+								cands := types
+								if recv != "" {
+									cands = []string{recv}
+								}
+								for _, t := range cands {
+									sig := sigs[t+"."+fun.Sel.Name]
+									for i, a := range call.Args {
+										if i < len(sig.params) && sig.params[i] == "string" {
+											add(fmt.Sprintf("%s.%s.%d", t, fun.Sel.Name, i), a, "string")
+										}
+									}
 								}
 							}
 						}
@@ -496,7 +605,7 @@ func init() {
 			}
 			note := ""
 			if !p.OK {
-				note = " (PROBE INCONCLUSIVE)"
+				note = " (UNPROBED or probe inconclusive: counted as raw)"
 			}
 			fmt.Fprintf(&b, "  (%d, %s)%s -- %s%s\n", c18Hash(p.Name), c18LeanBool(p.Raw), sep, p.Name, note)
 		}
@@ -516,7 +625,7 @@ func init() {
 		fmt.Fprintf(&b, "/-- hashes of the sinks of package html that write raw bytes themselves -/\ndef htmlRawHelperSinks : List Nat := [%d, %d, %d, %d, %d, %d, %d, %d]\n\n",
 			c18Hash("html.writeString"), c18Hash("html.appendString"), c18Hash("html.writeSprintf"), c18Hash("html.appendSprintf"),
 			c18Hash("html.NewIndividualName.unknown"), c18Hash("html.NewIndividualNameAndDates.unknown"), c18Hash("html.NewIndividualNameAndDatesLink.unknown"), c18Hash("q.Write"))
-		fmt.Fprintf(&b, "/-- string parameters of core constructors that do not reach a page: NewFile.0 (the file name, C19) -/\ndef nonPageStringSinks : List Nat := [%d]\n\n", c18Hash("NewFile.0"))
+		fmt.Fprintf(&b, "/-- string parameters of core constructors that do not reach a page: NewFile.0, NewDirectoryFileWriter.0 (file and directory names, C19) -/\ndef nonPageStringSinks : List Nat := [%d, %d]\n\n", c18Hash("NewFile.0"), c18Hash("NewDirectoryFileWriter.0"))
 		b.WriteString("end Gedcom.Generated\n")
 		return b.String()
 	}
